@@ -1,7 +1,9 @@
 (* C19 — Peak clustering, summing, merging and splitting conserve hits, area and time.
    Only property theorems, each closed by `exact <lemma>` and followed by Print Assumptions. *)
 From SV Require Import Model.PeakHelpers Spec.PeakHelpersSpec Proof.PeakHelpersProof.
+From SV Require Import Model.Peaks Spec.PeaksSpec Proof.PeaksProof Proof.PeaksTheorems Proof.PeaksExamples.
 
+(* ------------------------------------------------------------------------------------------ *)
 (* symmetric_moving_average (repaired code, `just_out >= 0`) equals the defining windowed mean:
    out[i] = (sum of a[max(0,i-w) .. min(n,i+w+1))) / (number of those samples), as an exact
    fraction, for every array and every wing width 0 <= w <= len(a). *)
@@ -18,3 +20,58 @@ Print Assumptions C19_moving_average_is_definition_partial.
 Theorem C19_moving_average_is_definition_refuted : exists a w, 0 <= w /\ sma a w <> sma_spec a w.
 Proof. exact sma_wide_wing_refuted. Qed.
 Print Assumptions C19_moving_average_is_definition_refuted.
+
+(* ------------------------------------------------------------------------------------------ *)
+(* find_peaks: whenever the assertions in front of the loop hold and the run succeeds, the output
+   is  map peak_of (filter keep gs)  for THE clustering gs of the hits (it exists, is unique, and
+   concatenates to the hit list: every hit in exactly one cluster, in order); peak_of / keep are
+   the closed formulas of Spec/PeaksSpec.v (start, truncated length, hit count, area, area per
+   channel, largest gap; area and channel cuts); every returned peak has positive length. *)
+Theorem C19_find_peaks_are_gap_clusters : forall P gains nch hs ps,
+  Forall (fun x => 0 <= hch x) hs -> fp_asserts P gains hs = true ->
+  find_peaks P gains nch hs = Ok ps ->
+  exists gs, Clustering P hs gs /\ (forall gs', Clustering P hs gs' -> gs' = gs) /\ concat gs = hs /\
+             ps = map (peak_of P gains nch) (filter (keep P gains nch) gs) /\
+             Forall (fun p => 0 < plen p) ps.
+Proof. exact find_peaks_spec. Qed.
+Print Assumptions C19_find_peaks_are_gap_clusters.
+
+(* the same without assuming success: the run result (peaks or the ValueError) is fp_out of the clustering *)
+Theorem C19_find_peaks_result_is_fp_out : forall P gains nch hs,
+  Forall (fun x => 0 <= hch x) hs -> fp_asserts P gains hs = true ->
+  exists gs, Clustering P hs gs /\ find_peaks P gains nch hs = fp_out P gains nch gs.
+Proof. exact find_peaks_clusters. Qed.
+Print Assumptions C19_find_peaks_result_is_fp_out.
+
+(* each peak spans its hits plus the extensions (hits of one dt, as the docstring assumes) *)
+Theorem C19_find_peaks_peak_spans_hits : forall P gains nch g d,
+  g <> [] -> uniform d g -> 0 < d -> 0 <= fp_lext P -> 0 <= fp_rext P -> hits_sorted g ->
+  let p := peak_of P gains nch g in
+  pt p = gfirst g - fp_lext P /\ pdt p = d /\ pnhits p = zlen g /\
+  (forall h, In h g -> pt p + fp_lext P <= ht h /\ hend h <= gend g) /\
+  pend p <= gend g + fp_rext P < pend p + d /\
+  ((d | gend g - pt p + fp_rext P) -> pend p = gend g + fp_rext P).
+Proof. exact peak_spans_hits. Qed.
+Print Assumptions C19_find_peaks_peak_spans_hits.
+
+(* disjoint and time-ordered: full statement (false: T3), the part that holds, and the witness *)
+Definition C19_full_find_peaks_disjoint_ordered : Prop :=
+  forall P gains nch hs ps d,
+    find_peaks P gains nch hs = Ok ps -> Forall (fun x => 0 <= hch x) hs -> fp_asserts P gains hs = true ->
+    hits_sorted hs -> uniform d hs -> 0 < d -> 0 <= fp_lext P -> 0 <= fp_rext P ->
+    peaks_disjoint_ordered ps.
+
+Theorem C19_find_peaks_disjoint_ordered_partial : forall P gains nch hs ps gs d,
+  find_peaks P gains nch hs = Ok ps -> Forall (fun x => 0 <= hch x) hs -> fp_asserts P gains hs = true ->
+  Clustering P hs gs -> AllFar P gs -> uniform d hs -> 0 < d -> 0 <= fp_lext P -> 0 <= fp_rext P ->
+  peaks_disjoint_ordered ps.
+Proof. exact find_peaks_disjoint. Qed.
+Print Assumptions C19_find_peaks_disjoint_ordered_partial.
+
+Theorem C19_find_peaks_disjoint_ordered_refuted :
+  exists P gains nch hs ps,
+    fp_asserts P gains hs = true /\ hits_sorted hs /\ uniform 1 hs /\
+    Forall (fun x => 0 <= hch x) hs /\ 0 <= fp_lext P /\ 0 <= fp_rext P /\
+    find_peaks P gains nch hs = Ok ps /\ ~ peaks_disjoint_ordered ps.
+Proof. exact find_peaks_overlap_witness. Qed.
+Print Assumptions C19_find_peaks_disjoint_ordered_refuted.
